@@ -564,6 +564,39 @@ def run_prop(prop: str, tier: str, replay=None) -> int:
         distinct.add(("gen", it["src"]))
         if len(samples) < 5 and it["stream"] == "clean":
             samples.append({"program": it["src"], "stream": it["stream"], "carve_out_classes": sorted(feats)})
+    # ---- C16: HOW the two layouts are related.  Lean decides per output whether the READ_STATEMENTS text satisfies LayoutWF and
+    # the EXEC_CLASSES text is its stable partition (pure declarations hoisted in front): then theorem layout_rel_sound gives the
+    # equality of the denotations for every state; otherwise the per-output comparison of the two denotations above is the check.
+    layout = {"pairs": 0, "wf": 0, "hoist_equal": 0, "equal_denotation_by_theorem": 0, "unparsed": 0}
+    if prop == "C16":
+        pairs = []
+        for (name, part), reps in by_part.items():
+            t_ = {f: per_fmt[f][name]["rzil"][part] for f in reps}
+            if len(t_) == 2:
+                pairs.append((f"{name} part {part}", t_, reps))
+        for it in items:
+            if it["status"] == "ok" and len(it.get("text", {})) == 2:
+                pairs.append((it["src"], it["text"], it["report"]))
+        f_rs, f_ec = textcheck.FORMATS
+        from common import Driver
+        lreps = Driver().run([sx(["layout-rel", Q(t_[f_rs]), Q(t_[f_ec])]) for _, t_, _ in pairs]) if pairs else []
+        for (ident, t_, reps), lr in zip(pairs, lreps):
+            d = parse_sx(lr)
+            layout["pairs"] += 1
+            fields = {x[0]: x[1] for x in d[1:] if isinstance(x, list) and len(x) == 2}
+            if "error" in fields or d[0] != "layout-rel":
+                layout["unparsed"] += 1
+                continue
+            wf, he = fields.get("wf") == "1", fields.get("hoist-equal") == "1"
+            layout["wf"] += wf
+            layout["hoist_equal"] += he
+            if wf and he:
+                layout["equal_denotation_by_theorem"] += 1
+                dn = {f: r.get("denote") for f, r in reps.items()}
+                if len(set(dn.values())) != 1:
+                    # the theorem says the denotations are equal; the driver computed different ones: the driver contradicts itself
+                    viol.append({"what": ["internal inconsistency: layout-rel accepts the pair (theorem layout_rel_sound) but the driver's two denotations differ"],
+                                 "scope": "layout-rel", "ident": ident, "emitted": t_})
     proto_checked = 0
     if prop == "C12":
         proto_checked = read_protocol(viol)
@@ -600,7 +633,7 @@ def run_prop(prop: str, tier: str, replay=None) -> int:
         "exhaustive": tier == "thorough",
         "corpus": cstats,
         "generated": gstats,
-        "companion_records_checked": rec_checked, "api_sub_routines_checked": api_subs, "programs_under_other_inlining_settings": inl, "read_protocol_objects": proto_checked,
+        "companion_records_checked": rec_checked, "api_sub_routines_checked": api_subs, "layout_relation (C16)": layout, "programs_under_other_inlining_settings": inl, "read_protocol_objects": proto_checked,
         "known_finding_hits": known_hit,
         "violations_total": len(viol),
         "samples": samples,
